@@ -901,6 +901,25 @@ def desugar_iter(body, qualname):
                % (recv, p1[0], _strip_block(b1), p2[0], _strip_block(b2), callee, restargs))
         body = body[:st] + rep + body[ce + 1:]
         applied.append({'rule': 'D6 filter+map argument -> eager Vec + into_iter', 'callee': callee})
+    # ---- D7 : for X in E.take(N) BLOCK  =>  let mut verif_takenK: usize = 0; for X in E { if verif_takenK < N { verif_takenK += 1; BLOCK } }
+    # (std: `take(n)` "yields the first n elements, or fewer if the underlying iterator ends sooner"; elements after the first N are pulled
+    # from the underlying iterator and ignored instead of not being pulled - unobservable for iterators over collections, the only use)
+    n_take = 0
+    while True:
+        mt = re.search(r'for\s+([A-Za-z_][A-Za-z0-9_]*)\s+in\s+([^\n{]+?)\.take\(([^\n{}]+?)\)\s*\{', body)
+        if not mt:
+            break
+        var = 'verif_taken%d' % n_take
+        n_take += 1
+        ob = mt.end() - 1
+        cb = match_close(body, ob, '{', '}')
+        inner = body[ob + 1:cb]
+        if re.search(r'\b(break|continue)\b', inner):
+            raise ExtractError("desugar D7 does not apply in %s (break/continue in the loop body)" % qualname)
+        rep = ('let mut %s: usize = 0;\n        for %s in %s {\n            if %s < %s {\n            %s += 1;%s            }\n        }'
+               % (var, mt.group(1), mt.group(2).strip(), var, mt.group(3).strip(), var, inner))
+        body = body[:mt.start()] + rep + body[cb + 1:]
+        applied.append({'rule': 'D7 for-in-take -> counted loop', 'receiver': mt.group(2).strip(), 'count': mt.group(3).strip()})
     # ---- D1 : E.for_each(|PAT| BLOCK);
     while True:
         i = body.find('.for_each(')
